@@ -238,6 +238,21 @@ func c06case(c *ctx, kind string, toks []string, k, procs int) {
 			verdict = "diff:" + d
 		}
 	}
+	if kind == "hist" && verdict == "same" {
+		// a function of the cluster state alone: the history ends like a controller started on its final state
+		var flat []string
+		for _, t := range toks {
+			if t != "sync" {
+				flat = append(flat, t)
+			}
+		}
+		fresh := c06run("world", flat, r.Fork())
+		if fresh.err != "" {
+			verdict = "diff:fresh-error:" + sanitize(fresh.err)
+		} else if d := c06diff(base, fresh); d != "" {
+			verdict = "diff:fresh-" + d
+		}
+	}
 	for i := 0; i < procs && verdict == "same"; i++ {
 		cmd := exec.Command("/proc/self/exe", "C06")
 		cmd.Env = append(os.Environ(), "HV_C06_CHILD="+args)
@@ -324,6 +339,30 @@ func runC06(c *ctx) {
 			s := g.ingress(ns, name, g.r.Range(0, 9))
 			ops = append(ops, "ing+"+world.IngressText(s))
 		}
+		// several events for one object of the first batch: delete+create, update+delete, delete alone, update
+		if g.r.Chance(1, 2) {
+			var first []string
+			for _, o := range rest {
+				if strings.HasPrefix(o, "ing+") {
+					first = append(first, o)
+				}
+			}
+			if len(first) > 0 {
+				o := gen.Pick(g.r, first)
+				key := o[4:strings.IndexAny(o, "@!")]
+				upd := "ing~" + o[4:]
+				switch g.r.Intn(4) {
+				case 0:
+					ops = append(ops, "ing-"+key, o)
+				case 1:
+					ops = append(ops, upd, "ing-"+key)
+				case 2:
+					ops = append(ops, "ing-"+key)
+				default:
+					ops = append(ops, upd)
+				}
+			}
+		}
 		ops = append(ops, "sync")
 		c06case(c, "hist", append(ops, opts...), k, 0)
 	}
@@ -338,6 +377,8 @@ var c06corpus = []string{
 	"world svc+d/app!http:80:8080!- ep~d/app!10.0.1.1:r:app-1 ing+d/i2@1!haproxy,-!balance-algorithm=first!a.local>/:Prefix:app:80!-!- ing+d/i1@1!haproxy,-!balance-algorithm=leastconn!b.local>/:Prefix:app:80!-!-",
 	// duplicated path and tls conflict, created in the same second, listed in both orders
 	"world svc+d/app!http:80:8080!- svc+e/app!http:80:8080!- sec+d/tls1!tls!1!a.local sec+e/tls1!tls!1!a.local ing+e/i1@3!haproxy,-!-!a.local>/:Prefix:app:80!a.local>tls1!- ing+d/i1@3!haproxy,-!-!a.local>/:Prefix:app:80!a.local>tls1!-",
+	// delete+create of one ingress in one batch (kubectl replace --force): same result as a fresh start
+	"hist svc+d/app!http:80:8080!- ep~d/app!10.0.1.1:r:app-1 svc+d/api!http:80:8080!- ing+d/i1@1!haproxy,-!-!a.local>/:Prefix:app:80!-!- ing+d/i2@2!haproxy,-!-!b.local>/:Prefix:api:80!-!- sync ing-d/i1 ing+d/i1@1!haproxy,-!-!a.local>/:Prefix:app:80!-!- sync",
 	// one batch with three conflicting new ingresses
 	"hist svc+d/app!http:80:8080!- svc+d/api!http:80:8080!- ing+d/i1@1!haproxy,-!-!a.local>/:Prefix:app:80!-!- sync ing+d/j3@5!haproxy,-!maxconn-server=10!a.local>/:Prefix:api:80+/a:Prefix:api:80!-!- ing+d/j1@5!haproxy,-!maxconn-server=20!a.local>/a:Prefix:app:80!-!- ing+d/j2@4!haproxy,-!-!a.local>/a:Prefix:api:80!-!- sync",
 }
